@@ -9,6 +9,7 @@ import sys
 import time
 
 import propcheck
+import runner
 import tv
 import rxlang
 import pike
@@ -178,7 +179,7 @@ def triage_tv(ck, progs, rows, known, pid):
             continue
         kid = None
         for name, pred in known:
-            if pred(p):
+            if name in runner.active_known() and pred(p):
                 kid = name
                 break
         confirmed = False
